@@ -343,13 +343,36 @@ func runC07(c *ctx) error {
 			g.multiMerge = true
 			c.res.Hist("doc.stacked-diamonds")
 		}
+		noSurgery := false
+		if i%40 == 11 {
+			// merge levels: a sequence of sources in which an earlier source gets a key only through its OWN merge
+			// (one or two levels down) and a later source defines the same key — depth first, the earlier source wins
+			k := core.Pick(rng, []string{"region", "k1", "x", "name"})
+			chain := "base: &base {" + k + ": from-base, only_base: 1}\n"
+			first := "*base"
+			for lv := 1 + rng.Intn(2); lv > 0; lv-- {
+				chain += fmt.Sprintf("mid%d: &mid%d {<<: %s, own%d: %d}\n", lv, lv, first, lv, lv)
+				first = fmt.Sprintf("*mid%d", lv)
+			}
+			other := "other: &other {" + k + ": from-other, only_other: 2}\n"
+			srcs := "[" + first + ", *other]"
+			want := "from-base"
+			if rng.Intn(3) == 0 {
+				srcs, want = "[*other, "+first+"]", "from-other"
+			}
+			src = chain + other + "out: {<<: " + srcs + ", tail: t}\n"
+			g = &c07Gen{r: rng, stringKeysOnly: true}
+			noSurgery = true
+			c.res.Hist("doc.merge-sequence-over-merge-levels")
+			_ = want
+		}
 		var root yaml.Node
 		if err := yaml.Unmarshal([]byte(src), &root); err != nil {
 			c.res.Hist("yaml.rejects")
 			continue
 		}
 		surgery := ""
-		if rng.Intn(4) == 0 {
+		if !noSurgery && rng.Intn(4) == 0 {
 			// back-edges that text cannot express
 			var all []*yaml.Node
 			collectNodes(&root, map[*yaml.Node]bool{}, &all)
